@@ -20,12 +20,28 @@ def _classes():
     return {'py': Simulator, 'c': skoolkit.CSimulator, 'pycm': CMIOSimulator, 'ccm': skoolkit.CCMIOSimulator}
 
 
+def tbases(frame):
+    """Clock offsets (multiples of the frame length, so frame positions are unchanged) that put the T-state counter just
+    below 2^32 (it crosses 2^32 during the run), just above it and far above it.  The implementations run with regs[T] +
+    offset; the records given to TLC carry T - offset (TLC integers are 32-bit)."""
+    return ((2 ** 32 // frame) * frame, (2 ** 32 // frame + 1) * frame, (2 ** 33 // frame + 7) * frame, (2 ** 41 // frame) * frame)
+
+
+def proj_regs(registers, tbase):
+    r = [int(v) for v in registers]
+    if tbase:
+        t = r[T] - tbase
+        r[T] = t if -2 ** 30 < t < 2 ** 30 else -1      # a clock that lost its high bits: impossible value, fails 't'
+    return r
+
+
 class Runner:
     """One implementation, 48K memory, real trace.Tracer driving it."""
 
-    def __init__(self, impl, regs, ov, inv, ints):
+    def __init__(self, impl, regs, ov, inv, ints, tbase=0):
         from skoolkit import simutils
         from skoolkit.trace import Tracer
+        self.tbase = tbase
         cls = _classes()[impl]
         use_bytes = impl in ('c', 'ccm')
         mem = bytearray(BASE_BYTES) if use_bytes else list(BASE)
@@ -35,6 +51,7 @@ class Runner:
         self.mem = self.sim.memory
         for i, v in enumerate(regs):
             self.sim.registers[i] = v
+        self.sim.registers[25] = regs[25] + tbase      # T-states (the name T is the local tracer class here)
         self.ref = bytes(self.mem) if use_bytes else list(self.mem)
         self.use_bytes = use_bytes
         outer = self
@@ -76,7 +93,7 @@ class Runner:
                 wr = [[a, mem[a]] for a in range(65536) if mem[a] != ref[a]]
                 for a, v in wr:
                     ref[a] = v
-        return {'r': [int(v) for v in self.sim.registers], 'wr': wr, 'io': self.io, 'exc': exc}
+        return {'r': proj_regs(self.sim.registers, self.tbase), 'wr': wr, 'io': self.io, 'exc': exc}
 
 
 # ---------------------------------------------------------------- program generation
@@ -169,16 +186,17 @@ def lockstep(args):
         start, ov, regs = gen_program(rnd, kind)
         ints = rnd.random() < 0.75
         inv = simdrv.r8(rnd)
+        tbase = rnd.choice(tbases(FRAME48)) if rnd.random() < 0.25 else 0
         for pair in PAIRS:
-            out.append(run_pair(pair, kind, regs, ov, inv, ints, steps if kind != 'edge' else 12))
+            out.append(run_pair(pair, kind, regs, ov, inv, ints, steps if kind != 'edge' else 12, tbase))
     return out
 
 
-def run_pair(pair, kind, regs, ov, inv, ints, steps):
+def run_pair(pair, kind, regs, ov, inv, ints, steps, tbase=0):
     """One program on one implementation pair, one instruction at a time for at most `steps` boundaries, then once more as a
     single call of the loop -> trace record for MachineTrace (r0, ov0, inv, ints and steps are the whole input: --replay)."""
-    a = Runner(pair[0], regs, ov, inv, ints)
-    b = Runner(pair[1], regs, ov, inv, ints)
+    a = Runner(pair[0], regs, ov, inv, ints, tbase)
+    b = Runner(pair[1], regs, ov, inv, ints, tbase)
     obs = []
     stuck = 0
     for _ in range(steps):
@@ -193,14 +211,14 @@ def run_pair(pair, kind, regs, ov, inv, ints, steps):
         if stuck >= 3:
             break
     # the same run as ONE call of the loop must end in the same state (loop bookkeeping, next_int tracking)
-    whole = Runner(pair[0], regs, ov, inv, ints).step(len(obs)) if obs and not obs[-1]['exc'] else None
-    whole2 = Runner(pair[1], regs, ov, inv, ints).step(len(obs)) if whole else None
+    whole = Runner(pair[0], regs, ov, inv, ints, tbase).step(len(obs)) if obs and not obs[-1]['exc'] else None
+    whole2 = Runner(pair[1], regs, ov, inv, ints, tbase).step(len(obs)) if whole else None
     loop_ok = 1
     if whole and (whole['r'] != obs[-1]['r'] or whole2['r'] != obs[-1]['r2']):
         loop_ok = 0
     return {'pair': '+'.join(pair), 'kind': kind, 'ints': 1 if ints else 0, 'frame': FRAME48, 'ia': IA48,
             'inv': inv, 'sem': 1, 'tsem': 1 if pair[0] == 'py' else 0, 'r0': regs, 'ov0': ov, 'obs': obs,
-            'loop_ok': loop_ok, 'steps': steps,
+            'loop_ok': loop_ok, 'steps': steps, 'tbase': str(tbase),
             'whole': None if loop_ok else {'single_call': whole['r'], 'single_call_partner': whole2['r']}}
 
 
@@ -231,8 +249,9 @@ class Runner128:
     """One implementation on 128K memory with the real trace.Tracer (which pages for the Python simulators; the C
     simulators page internally and the tracer mirrors it)."""
 
-    def __init__(self, impl, regs, pov, o7, inv, ints):
+    def __init__(self, impl, regs, pov, o7, inv, ints, tbase=0):
         from skoolkit import simutils
+        self.tbase = tbase
         from skoolkit.pagingtracer import Memory, PagingTracer
         from skoolkit.trace import Tracer
         cls = _classes()[impl]
@@ -250,6 +269,7 @@ class Runner128:
         self.mem = self.sim.memory
         for i, v in enumerate(regs):
             self.sim.registers[i] = v
+        self.sim.registers[25] = regs[25] + tbase      # T-states (the name T is the local tracer class here)
         self.ref = [bytes(b) for b in self.mem.banks] + [bytes(x) for x in self.mem.roms]
         outer = self
 
@@ -289,7 +309,7 @@ class Runner128:
                 self.ref[p] = cur
         vis3 = [i for i in range(8) if mem.memory[3] is mem.banks[i]]
         vis0 = [8 + i for i in range(2) if mem.memory[0] is mem.roms[i]]
-        return {'r': [int(v) for v in self.sim.registers], 'pw': pw, 'io': self.io, 'exc': exc,
+        return {'r': proj_regs(self.sim.registers, self.tbase), 'pw': pw, 'io': self.io, 'exc': exc,
                 'o7': int(mem.o7ffd), 'tr': int(self.tracer.out7ffd),
                 'vis3': vis3[0] if len(vis3) == 1 else -1, 'vis0': vis0[0] if len(vis0) == 1 else -1}
 
@@ -422,15 +442,16 @@ def lockstep128(args):
         regs, pov, o7 = gen_program128(rnd, alias)
         ints = rnd.random() < 0.8
         inv = simdrv.r8(rnd)
+        tbase = rnd.choice(tbases(FRAME128)) if rnd.random() < 0.25 else 0
         for pair in PAIRS:
-            out.append(run_pair128(pair, alias, regs, pov, o7, inv, ints, steps))
+            out.append(run_pair128(pair, alias, regs, pov, o7, inv, ints, steps, tbase))
     return out
 
 
-def run_pair128(pair, alias, regs, pov, o7, inv, ints, steps):
+def run_pair128(pair, alias, regs, pov, o7, inv, ints, steps, tbase=0):
     """The 128K counterpart of run_pair -> trace record for Machine128 (r0, pov0, o70, inv, ints, steps are the whole input)."""
-    a = Runner128(pair[0], regs, pov, o7, inv, ints)
-    b = Runner128(pair[1], regs, pov, o7, inv, ints)
+    a = Runner128(pair[0], regs, pov, o7, inv, ints, tbase)
+    b = Runner128(pair[1], regs, pov, o7, inv, ints, tbase)
     obs = []
     stuck = 0
     for _ in range(steps):
@@ -445,8 +466,8 @@ def run_pair128(pair, alias, regs, pov, o7, inv, ints, steps):
         stuck = stuck + 1 if (oa['r'][HALT] and (not oa['r'][IFF] or not ints)) else 0
         if stuck >= 3:
             break
-    whole = Runner128(pair[0], regs, pov, o7, inv, ints).step(len(obs)) if obs and not obs[-1]['exc'] else None
-    whole2 = Runner128(pair[1], regs, pov, o7, inv, ints).step(len(obs)) if whole else None
+    whole = Runner128(pair[0], regs, pov, o7, inv, ints, tbase).step(len(obs)) if obs and not obs[-1]['exc'] else None
+    whole2 = Runner128(pair[1], regs, pov, o7, inv, ints, tbase).step(len(obs)) if whole else None
     loop_ok = 1
     if whole and (whole['r'] != obs[-1]['r'] or whole2['r'] != obs[-1]['r2'] or whole['o7'] != obs[-1]['o7']
                   or whole2['o7'] != obs[-1]['o7']):
@@ -454,7 +475,7 @@ def run_pair128(pair, alias, regs, pov, o7, inv, ints, steps):
     return {'pair': '+'.join(pair), 'kind': '128k-alias' if alias else '128k', 'ints': 1 if ints else 0,
             'frame': FRAME128, 'ia': IA128, 'inv': inv, 'sem': 0 if alias else 1,
             'tsem': 1 if pair[0] == 'py' else 0, 'r0': regs, 'pov0': pov, 'o70': o7, 'obs': obs,
-            'loop_ok': loop_ok, 'steps': steps,
+            'loop_ok': loop_ok, 'steps': steps, 'tbase': str(tbase),
             'whole': None if loop_ok else {'single_call': whole['r'], 'single_call_partner': whole2['r']}}
 
 
@@ -575,7 +596,31 @@ def gen_fast(rnd):
     for i, b in enumerate(code):
         ov[(pc + i) % 65536] = b     # the code wins over the source area where they overlap
     regs[PC] = pc
-    return kind, regs, [[a, v] for a, v in ov.items()], stop, (at if kind != 'djnz' else -1)
+    ints = 0
+    if rnd.random() < 0.3 and 0x4000 <= pc < 0xFF00:
+        # run(start, stop, interrupts=True): the frame interrupt arrives while the loop runs (or ends a HALT); the closed
+        # forms must step aside (IFF=1) and run()'s own interrupt bookkeeping must agree with the machine
+        ints = 1
+        regs[IFF] = 1 if rnd.random() < 0.9 else 0
+        regs[IM] = rnd.choice((1, 1, 2, 0))
+        regs[T] = FRAME48 * rnd.randrange(1, 4) - rnd.choice((0, 1, 4, 13, 21, 40, 100, 250, 400)) + rnd.choice((0, 0, 31, 32))
+        regs[I] = 0x7E
+        for a, v in ((0x38, 0xFB), (0x39, 0xC9), (0x7EFF, 0x00), (0x7F00, 0x91),
+                     (0x9100, 0xF5), (0x9101, 0xF1), (0x9102, 0xFB), (0x9103, 0xED), (0x9104, 0x4D)):
+            ov[a] = v
+        if rnd.random() < 0.3 and regs[IFF]:
+            # HALT first: only the interrupt lets the program go on
+            ov[stop] = ov[(stop - 1) % 65536]
+            for i in range(len(code), 0, -1):
+                ov[(pc + i) % 65536] = ov[(pc + i - 1) % 65536]
+            ov[pc] = 0x76
+            stop = (stop + 1) % 65536
+            if at >= 0:
+                at = (at + 1) % 65536
+            if kind != 'djnz':
+                de = regs[E] + 256 * regs[D]
+                regs[T] = FRAME48 * rnd.randrange(1, 4) - rnd.choice((1, 4, 5, 8, 40))
+    return kind, regs, [[a, v] for a, v in ov.items()], stop, (at if kind != 'djnz' else -1), ints
 
 
 def _mk(impl, cfg, regs, ov):
@@ -590,33 +635,35 @@ def _mk(impl, cfg, regs, ov):
     return sim, bytes(mem)
 
 
-def fast_case(kind, regs, ov, stop, at=-1, mark=None):
-    """Plain stepping decides whether the program reaches `stop` within FAST_MAX instructions; if so every
-    implementation/configuration runs it as ONE run(start, stop) call."""
+def fast_case(kind, regs, ov, stop, at=-1, ints=0, mark=None):
+    """Without interrupts plain stepping decides whether the program reaches `stop` within FAST_MAX instructions (if not, no
+    case); then every implementation/configuration runs it as ONE run(start, stop, interrupts) call."""
     import signal
-    sim, ref = _mk('py', None, regs, ov)
-    steps = 0
-    while steps < FAST_MAX:
-        sim.run()
-        steps += 1
-        if sim.registers[PC] == stop:
-            break
-    else:
-        return None
+    steps = -1
+    if not ints:
+        sim, ref = _mk('py', None, regs, ov)
+        steps = 0
+        while steps < FAST_MAX:
+            sim.run()
+            steps += 1
+            if sim.registers[PC] == stop:
+                break
+        else:
+            return None
     obs = []
     for name, impl, cfg in FAST_IMPLS:
         sim, ref = _mk(impl, cfg, regs, ov)
         exc = ''
         if mark:
             with open(mark, 'w') as f:
-                f.write(repr((name, kind, regs, ov, stop)))
+                f.write(repr((name, kind, regs, ov, stop, ints)))
 
         def over(*a):
-            raise TimeoutError('run(start, stop) still running after 10 s')
+            raise TimeoutError('run(start, stop) still running after %d s' % (3 if ints else 10))
         old = signal.signal(signal.SIGALRM, over)
-        signal.alarm(10)
+        signal.alarm(3 if ints else 10)
         try:
-            sim.run(regs[PC], stop, False)
+            sim.run(regs[PC], stop, bool(ints))
         except Exception as e:
             exc = '%s: %s' % (type(e).__name__, e)
         finally:
@@ -626,8 +673,8 @@ def fast_case(kind, regs, ov, stop, at=-1, mark=None):
         wr = [[a, cur[a]] for a in range(65536) if cur[a] != ref[a]] if cur != ref else []
         obs.append({'impl': name, 'r': [int(v) for v in sim.registers], 'wr': wr, 'exc': exc})
     own = 1 if at >= 0 and any(a in (at, (at + 1) % 65536) for a, v in obs[1]['wr']) else 0
-    return {'kind': kind, 'r0': regs, 'ov0': ov, 'stop': stop, 'max': steps, 'steps': steps, 'frame': FRAME48, 'ia': IA48,
-            'inv': 255, 'obs': obs, 'at': at, 'own': own}
+    return {'kind': kind, 'r0': regs, 'ov0': ov, 'stop': stop, 'max': FAST_MAX, 'steps': steps, 'frame': FRAME48, 'ia': IA48,
+            'inv': 255, 'obs': obs, 'at': at, 'own': own, 'ints': ints}
 
 
 def fast_cases(args):
